@@ -59,6 +59,15 @@ def build_command(proto, cmd):
         return proto.write_command(cmd["reg"], cmd["value"])
     if op == "wmulti":
         return proto.write_multi_command(cmd["reg"], bytes.fromhex(cmd["hex"]))
+    if op == "raw":
+        # what Inverter.send_command(bytes, validator) builds: a plain ProtocolCommand around a ready-made frame
+        import goodwe.modbus as gm
+        inner = proto.read_command(cmd["reg"], cmd["count"])
+        if isinstance(proto, gp.TcpInverterProtocol):
+            return gp.ProtocolCommand(bytes(inner.request_bytes()),
+                                      lambda d: gm.validate_modbus_tcp_response(d, 3, cmd["reg"], cmd["count"]))
+        return gp.ProtocolCommand(bytes(inner.request_bytes()),
+                                  lambda d: gm.validate_modbus_rtu_response(d, 3, cmd["reg"], cmd["count"]))
     if op == "aa55":
         return gp.Aa55ProtocolCommand(cmd["payload"], cmd["rtype"])
     if op == "aa55read":
